@@ -95,6 +95,10 @@ func latest(d desc) int {
 // registryOwn: disagreements about what the registry itself decides (C13's business)
 var registryOwn = map[string]bool{"valid-set-reports-errors": true, "accepted-text-rejected": true, "duplicate-accepted": true, "bare-name-differs": true, "import-binding-differs": true}
 
+// relevant: the one disagreement of the multi-revision cases that each of the other properties speaks about
+var relevant = map[string]string{"C07": "augment-lands-in-another-revision", "C08": "deviation-lands-in-another-revision",
+	"C09": "type-reaches-another-revision", "C12": "attribution-fails-among-revisions", "C17": "path-reaches-another-revision"}
+
 func classOf(c *cas) string {
 	if c.Mode == "fs" {
 		return "find-file"
@@ -133,6 +137,7 @@ func moduleText(d desc) string {
 	}
 	// a choice with a shorthand member and an augment of the module's own: whichever revisions are loaded, every tree is
 	// swept, gets its implicit cases and its own augments (C04)
+	fmt.Fprintf(&sb, "  typedef tt { type string; units %q; }\n", d.Tag)
 	fmt.Fprintf(&sb, "  container c { leaf x { type string; default %q; } choice ch { leaf sh { type string; } } uses h:hg; }\n", d.Tag)
 	fmt.Fprintf(&sb, "  augment \"/%s:c\" { leaf own-aug { type string; } choice och { container oc; } }\n", d.Name)
 	sb.WriteString("}\n")
@@ -163,8 +168,8 @@ func exec(kind byte, body []byte) *core.Verdict {
 	v := &core.Verdict{OK: true, Class: classOf(&c), NT: len(c.Loads) >= 2}
 	var hist []string
 	fail := func(sig, f string, a ...any) *core.Verdict {
-		if c.Prop != "" && c.Prop != "C13" && registryOwn[sig] {
-			v.Out = true
+		if c.Prop != "" && c.Prop != "C13" && (registryOwn[sig] || relevant[c.Prop] != sig) {
+			v.Out = true // under another property only what that property claims is compared
 			return v
 		}
 		v.OK, v.Sig, v.Detail = false, sig, fmt.Sprintf(f, a...)+"\nloads: "+strings.Join(hist, ", ")
@@ -216,7 +221,36 @@ func exec(kind byte, body []byte) *core.Verdict {
 		}
 		_ = want
 	}
+	// two revisions of ONE importing module, each pinned to its own revision of a under the same prefix: what p:tt means
+	// is a matter of the importing revision (C09: exactly the module imported under that prefix)
+	pinned := c.Imports["1"] != "none" && c.Imports["2"] != "none" && c.Imports["1"] != c.Imports["2"] && (c.Prop == "" || c.Prop == "C13" || c.Prop == "C09")
+	if pinned {
+		for r := 1; r <= 2; r++ {
+			if err := ms.Parse(fmt.Sprintf("module rimp { namespace \"urn:rimp\"; prefix rimp; import a { prefix p; revision-date %s; } revision 2040-01-0%d;\n leaf via { type p:tt; } typedef vt { type p:tt; } leaf via2 { type vt; } }", date(r), r), fmt.Sprintf("rimp-%d.yang", r)); err != nil {
+				return &core.Verdict{Infra: "pinned importer does not parse: " + err.Error()}
+			}
+		}
+	}
 	perrs := ms.Process()
+	if pinned && len(perrs) == 0 {
+		for r := 1; r <= 2; r++ {
+			m := ms.Modules[fmt.Sprintf("rimp@2040-01-0%d", r)]
+			want := c.Imports[fmt.Sprint(r)]
+			if m == nil {
+				continue
+			}
+			e := yang.ToEntry(m)
+			for _, ln := range []string{"via", "via2"} {
+				if l := e.Dir[ln]; l == nil || l.Type == nil || l.Type.Units != want {
+					got := "no type"
+					if l != nil && l.Type != nil {
+						got = l.Type.Units
+					}
+					return fail("type-reaches-another-revision", "revision 2040-01-0%d of module rimp imports a with revision-date %s as p (that is %s): its leaf %s of type p:tt has the units of %s", r, date(r), want, ln, got)
+				}
+			}
+		}
+	}
 	if c.Prop == "C04" && len(perrs) == 0 {
 		// the pointer graph of every tree of the set, for SchemaTrace's well-formedness predicate
 		var keys []string
